@@ -162,8 +162,24 @@ def check_type_renderer(fx, rep, rule, name, remap_path, prim_path, entry_name=N
             return ("in", "LASTCH")
         if t[0] == "after" and t[1] == ("in", "LASTCH"):
             return ("in", "BODY")
+        # `chars.as_str().strip_suffix(';')` right after the `L` was taken: Some(body) iff the last character is ';' (one test for
+        # "there is a last character" and "it is ';'", linked to the reference's two atoms by `strip_axioms` below)
+        if t[0] == "call" and t[1] == "core::str::strip_suffix" and len(t[2]) == 2 and t[2][1] == ("lit", "char", ";") and t[2][0] in (("after", R.NEXT), ("after", R.NEXT, 0)):
+            return ("in", "STRIPPED")
+        if t[0] == "payload" and t[1] == ("in", "STRIPPED") and t[2] == "Some":
+            return ("in", "BODY")
         return None
     last = ("in", "LASTCH")
+
+    def strip_axioms(a_):
+        s_ = a_.get(("is", ("in", "STRIPPED"), "Some"))
+        l_ = a_.get(("is", last, "Some"))
+        e_ = a_.get(fc.canon_atom(("eq", mk_payload(last, "Some", "0"), ("lit", "char", ";")))[0])
+        if s_ is True and (l_ is False or e_ is False):
+            return False
+        if s_ is False and l_ is True and e_ is True:
+            return False
+        return True
 
     def fmt2(a, b_):
         return some(("format", ("fmtargs", (("hole",), ("hole",)), (("display", a), ("display", b_)))))
@@ -208,7 +224,7 @@ def check_type_renderer(fx, rep, rule, name, remap_path, prim_path, entry_name=N
             st2 = st.copy()
             st2.effects = tuple(st.effects[st.effects.index(("inloop", idx)) + 1:])
             lpaths.append((st2, (S.RET, v)))
-    bad, n = fc.compare_paths(lpaths, ref, outcome, rw=rw, base=base)
+    bad, n = fc.compare_paths(lpaths, ref, outcome, rw=rw, axioms=strip_axioms, base=base)
     if not bad:
         rep.ok(rule, "%s/%s/state-machine" % (rule, name), loc=F.loc(L["node"]),
                found="%d canonical paths equal the reference ('[' -> suffix += \"[]\"; 'L..;' -> remap_class(dotted) else dotted; primitive -> keyword; + suffix)" % len(L["paths"]))
